@@ -16,10 +16,15 @@
      spec_handled i rel           the documented law: no ignore rule of the intent matches the file's name or a folder
                                   on its way
      spec_shown i root files      the documented law for the intent i of the session
+     run_live fx .. j c lr evs    the server's state (configuration, saved diagnostics, remembered unsaved buffers, and
+                                  l_view: the list the client holds for each file) after initialize and the history evs
+                                  of edits of unsaved buffers (EEdit f errs: didOpen + didChange of file f to a text
+                                  whose syntax errors are errs) and settings notifications (ESettings c)
+     spec_view .. j c root files evs   the demanded list for each file after that history (Spec/ConfigSpec.v)
      re_ok / re_match / raw       the Go regexp engine and the everything-enabled analysis: arbitrary (universally
                                   quantified) in every theorem *)
 From Coq Require Import List NArith Bool String.
-From LH Require Import Base.Bytes Base.Res Model.Config Spec.ConfigSpec Proofs.ConfigProofs Tie.TieConfig.
+From LH Require Import Base.Bytes Base.Res Model.Config Spec.ConfigSpec Proofs.ConfigProofs Proofs.ConfigLive Tie.TieConfig.
 From LH Require Generated.GenFlags.
 Import ListNotations.
 Local Open Scope N_scope.
@@ -48,8 +53,9 @@ Print Assumptions C17_full.
    sources on every run (Tie/TieConfig.v: no regexp.MustCompile on user text + IgnoreVarMap allocated at start-up; the
    errTypeList of IsSpecialCheck, as a list; the table of IsGlobalIgnoreErrType / IsIgnoreErrorFile uses inside
    check/analysis has the repaired shape; handleNotJSONCheckFlag writes OpenErrorTypeMap; ReadConfig reads
-   IgnoreFileErrTypesMap before assigning; getAllFile and IsIgnoreCompleteFile both end in isIgnoreRelFile).
-   Reverting any of the seven fix: commits breaks this proof (Tie/TieConfig.v
+   IgnoreFileErrTypesMap before assigning; getAllFile and IsIgnoreCompleteFile both end in isIgnoreRelFile;
+   clearLspServer clears the files of fileErrorMap and of fileChangeErrorMap before it empties the maps).
+   Reverting any of the eight fix: commits breaks this proof (Tie/TieConfig.v
    itself compiles for any state of the code, so that the correspondence legs still run - with the variant of the model
    that describes the changed code - and look for a failing input). *)
 Theorem C17_code_is_deployed_variant : fixes_now = deployed.
@@ -388,6 +394,121 @@ Print Assumptions C17_ignore_sites_repaired.
 Theorem C17_full_refuted_before_sites : ~ C17_full_for code_round2.
 Proof. exact full_round2_refuted. Qed.
 Print Assumptions C17_full_refuted_before_sites.
+
+(* ---- 7. unsaved buffers: a settings change and the syntax errors on display for files with unsaved edits ---- *)
+
+(* EVERY history of edits and settings notifications, any route (luahelper.json or client), any regexp engine, any
+   analysis reporting the existing types: the configuration state is that of the session, and every file shows exactly
+   the demanded list (Spec/ConfigSpec.v spec_view: the allowed syntax errors of its unsaved buffer, else its saved
+   diagnostics without the syntax errors; a settings change that takes effect = a fresh start with the new intent) *)
+Theorem C17_live_view_full :
+  forall fx re_ok re_match raw,
+    gate_covers fx = true -> fx_coupled fx = true -> fx_dead fx = true -> fx_dup fx = true -> fx_sites fx = true ->
+    fx_live fx = true ->
+    (forall fs, forallb type_ok (raw fs) = true) ->
+    forall root files j c local_run, client_wf c = true ->
+    forall evs st,
+    forallb client_wf (settings_of evs) = true -> edits_wf evs = true ->
+    run_live fx re_ok re_match raw root files j c local_run evs = Ok st ->
+    session fx re_ok j c local_run (settings_of evs) = Ok (l_srv st)
+    /\ forall f, l_view st f = spec_view re_ok re_match raw j c root files evs f.
+Proof. exact live_refines. Qed.
+Print Assumptions C17_live_view_full.
+
+(* ... hence at no point of any history does a file show a diagnostic the configuration of the moment excludes *)
+Theorem C17_live_view_never_excluded :
+  forall fx re_ok re_match raw,
+    gate_covers fx = true -> fx_coupled fx = true -> fx_dead fx = true -> fx_dup fx = true -> fx_sites fx = true ->
+    fx_live fx = true ->
+    (forall fs, forallb type_ok (raw fs) = true) ->
+    forall root files j c local_run, client_wf c = true ->
+    forall evs st f d,
+    forallb client_wf (settings_of evs) = true -> edits_wf evs = true ->
+    run_live fx re_ok re_match raw root files j c local_run evs = Ok st ->
+    In d (l_view st f) ->
+    spec_excluded re_ok re_match (session_intent j c (settings_of evs)) root d = false.
+Proof. exact live_never_excluded. Qed.
+Print Assumptions C17_live_view_never_excluded.
+
+(* right after a settings change that takes effect (not the start-up synchronisation, no luahelper.json) - whatever was
+   edited before, whichever buffers are unsaved, for every old and new configuration - every file shows exactly its
+   share of what the new intent allows of the workspace as it is on disk; in particular nothing the new configuration
+   excludes *)
+Theorem C17_settings_change_clears_live :
+  forall fx re_ok re_match raw,
+    gate_covers fx = true -> fx_coupled fx = true -> fx_dead fx = true -> fx_dup fx = true -> fx_sites fx = true ->
+    fx_live fx = true ->
+    (forall fs, forallb type_ok (raw fs) = true) ->
+    forall root files j c local_run, client_wf c = true ->
+    forall evs c' st,
+    forallb client_wf (settings_of evs) = true -> client_wf c' = true -> edits_wf evs = true ->
+    spec_takes_effect j (settings_of evs) = true ->
+    run_live fx re_ok re_match raw root files j c local_run (evs ++ [ESettings c']) = Ok st ->
+    (forall f, l_view st f
+               = of_file f (spec_shown re_ok re_match raw (session_intent j c (settings_of evs ++ [c'])) root files))
+    /\ (forall f d, In d (l_view st f) ->
+          spec_excluded re_ok re_match (session_intent j c (settings_of evs ++ [c'])) root d = false).
+Proof. exact settings_change_clears_live. Qed.
+Print Assumptions C17_settings_change_clears_live.
+
+(* the step alone, for EVERY state of the server in which a file shows something only if the server knows it (it has
+   saved diagnostics or is a remembered unsaved buffer: `supp`, an invariant of every history) - i.e. every set of
+   unsaved buffers, whatever they show - and every new configuration state s': afterwards each file shows its share of
+   the fresh analysis under s' *)
+Theorem C17_settings_step_is_fresh_start :
+  forall fx re_ok re_match raw,
+    fx_live fx = true ->
+    forall root files st s', supp st ->
+    forall f, l_view (resettle fx re_ok re_match raw root files st s') f
+              = of_file f (shown fx re_ok re_match raw (s_g s') root files).
+Proof. exact resettle_fresh. Qed.
+Print Assumptions C17_settings_step_is_fresh_start.
+
+(* the demanded view itself never holds a diagnostic the intent of the moment excludes (so the spec is not satisfied by
+   showing too much) *)
+Theorem C17_spec_view_allowed :
+  forall re_ok re_match raw j c root files evs f d,
+    In d (spec_view re_ok re_match raw j c root files evs f) ->
+    spec_excluded re_ok re_match (session_intent j c (settings_of evs)) root d = false.
+Proof. exact spec_view_allowed. Qed.
+Print Assumptions C17_spec_view_allowed.
+
+(* the class of the defect (computed by the correspondence leg c17.live with the same extracted predicate, on the state
+   before every settings notification) is empty on the repaired code *)
+Theorem C17_live_class_empty : forall fx st, fx_live fx = true -> cls_live_stale fx st = false.
+Proof. exact live_class_empty. Qed.
+Print Assumptions C17_live_class_empty.
+
+(* the statement of the defect for one variant of the code, the deployed code, and the code before the repair *)
+Definition C17_live_for (fx : fixes) : Prop := live_for fx.
+
+Theorem C17_live_deployed : C17_live_for deployed.
+Proof. exact live_deployed. Qed.
+Print Assumptions C17_live_deployed.
+
+Theorem C17_live_refuted_before : ~ C17_live_for code_round3.
+Proof. exact live_round3_refuted. Qed.
+Print Assumptions C17_live_refuted_before.
+
+(* the witness (replayed on the real server, known_findings/C17.json): a.lua has no diagnostic on disk; start-up
+   synchronisation; its unsaved buffer gets a syntax error (published); then a settings change - CheckSyntax off, or the
+   master switch off, or IgnoreFileOrDirError ["a.lua"], or IgnoreFileOrDir ["a.lua"] -; then another edit of the
+   still-broken buffer.  Before the repair a.lua kept showing the syntax error in all four (clearLspServer cleared the
+   files of fileErrorMap only); now it shows nothing, as demanded - and with a new configuration that does not touch
+   type 1 (only CheckLocalNoUse off) the next edit shows the error again *)
+Theorem C17_settings_change_clears_live_repaired :
+  map (live_final_view code_round3) [w_syntax_off; w_master_off; w_silence_a; w_ignore_a]
+    = [[live_err]; [live_err]; [live_err]; [live_err]]
+  /\ map (fun c' => spec_view re_all re_none raw_clean None w_all_on [] [a_lua] (live_history c') a_lua)
+         [w_syntax_off; w_master_off; w_silence_a; w_ignore_a] = [[]; []; []; []]
+  /\ map (fun c' => spec_excluded re_all re_none (session_intent None w_all_on (settings_of (live_history c'))) [] live_err)
+         [w_syntax_off; w_master_off; w_silence_a] = [true; true; true]
+  /\ spec_handled re_all re_none (session_intent None w_all_on (settings_of (live_history w_ignore_a))) a_lua = false
+  /\ map (live_final_view deployed) [w_syntax_off; w_master_off; w_silence_a; w_ignore_a] = [[]; []; []; []]
+  /\ live_final_view deployed w_coupled = [live_err]
+  /\ edits_wf (live_history w_syntax_off) = true.
+Proof. vm_compute. repeat split. Qed.
+Print Assumptions C17_settings_change_clears_live_repaired.
 
 (* ---- non-vacuity ---- *)
 
